@@ -7,7 +7,7 @@ import ast
 from .facts import COUNTMIN, const_int, facts_of
 from .flow import Arr, ArrSlice, Bytes, Num, Opaque, Tup, cast_target, conjuncts, show_cond
 from .lin import Lin, show_lin
-from .model import AnalysisError, Ty, call_name, dotted, self_attr, unparse, walk_no_nested
+from .model import resolve_temps, AnalysisError, Ty, call_name, dotted, self_attr, unparse, walk_no_nested
 from .rules_arith import (SUMMARIES, agg, fact_strs, group_by_node, hash_site, on_path, query_kernels, seed_is_row, src,
                           table_params, walk_kernel)
 
@@ -135,7 +135,7 @@ def rule_randtoken(ctx):
         for end in ends:
             if end.loops:
                 lp = end.loops[-1]
-                hv = lp.head_env.get(tokname) if not is_method else lp.head_env.get("@" + tokname)
+                hv = get_env_tok(lp.head_env) if not is_method else lp.head_env.get("@" + tokname)
                 if is_method and hv is None:
                     hv = Num(entry_lin)
                 cur = hv.lin if isinstance(hv, Num) else None
@@ -169,7 +169,7 @@ def rule_randtoken(ctx):
                         bad = (ev, "the pointer held when entering the loop is not the latest one returned: the result of a call was dropped")
                         break
                     lp2 = ev.loop
-                    hv = lp2.head_env.get(tokname) if not is_method else lp2.head_env.get("@" + tokname)
+                    hv = get_env_tok(lp2.head_env) if not is_method else lp2.head_env.get("@" + tokname)
                     if isinstance(hv, Num):
                         cur = hv.lin
             if bad is None:
@@ -191,7 +191,11 @@ def rule_randtoken(ctx):
         if not any(c.callee.key in toks for c in F.calls_from(k)):
             continue        # the draw function itself produces the pointer: rule batchconst
         w = walk_kernel(F, k)
-        res = check(k, w, tp, Lin.term(("param", tp)), lambda env: env.get(tp), False)
+        def env_tok(env, tp=tp):
+            while tp not in env and "^caller" in env:      # inside an inlined helper that does not handle the token
+                env = env["^caller"]
+            return env.get(tp)
+        res = check(k, w, tp, Lin.term(("param", tp)), env_tok, False)
         for nid, rs in res.items():
             n += 1
             agg(ctx, "randtoken", k, rs[0][0].node, "%s: %s" % (k.name, src(k, rs[0][0].node, 60) if rs[0][0].kind == "ret" else "loop body"),
@@ -480,18 +484,27 @@ def rule_logmerge_shape(ctx):
         ctx.ob("logmerge-shape", k, a.node, "%s / %s" % (src(k, a.node, 40), src(k, b.node, 40)), "the two candidates are clower and clower + 1", adj)
         # clower = uintN(log((v - nr)*(base-1)+1)/log(base)) + nr   (inverse of the decoder)
         want = parse_nf("log((v - %s) * (%s - 1.0) + 1.0) / log(%s)" % (nr_p, base_p, base_p))
-        vname = None
+        # temporaries are resolved first (within one iteration every single-assignment local denotes its defining expression)
         found = False
+        dec2 = "_counter2value"
         for n in walk_no_nested(k.node):
-            if isinstance(n, ast.Assign) and isinstance(n.targets[0], ast.Name):
-                t = nf(n.value)
-                if t[0] == "add" and all(x[0] == "call" and x[1] == "_counter2value" for x in t[1]):
-                    vname = n.targets[0].id
-        if vname:
-            want = parse_nf("log((%s - %s) * (%s - 1.0) + 1.0) / log(%s)" % (vname, nr_p, base_p, base_p))
-        for n in walk_no_nested(k.node):
-            if isinstance(n, ast.Assign) and nf(n.value) == want:
-                found = True
+            if not (isinstance(n, ast.Assign) or isinstance(n, ast.AugAssign)):
+                continue
+            full = resolve_temps(k.node, n.value, allow_subscript=True, pure_only=False, in_loops=True)
+            for sub in ast.walk(full):
+                if not (isinstance(sub, ast.BinOp) and isinstance(sub.op, ast.Div)):
+                    continue
+                t = nf(sub)
+                # log((V - nr)*(base - 1) + 1) / log(base)   with V = decode(.) + decode(.)
+                if t[0] != "Div" or t[2] != nf(ast.parse("log(%s)" % base_p, mode="eval").body):
+                    continue
+                num = t[1]
+                if not (num[0] == "call" and num[1] == "log" and len(num[2]) == 1):
+                    continue
+                arg = num[2][0]
+                for vcand in _sum_of_decodes(arg):
+                    if arg == ("add", tuple(sorted([("c", 1.0), ("mul", tuple(sorted([("Sub", vcand, ("n", nr_p)), ("Sub", ("n", base_p), ("c", 1.0))], key=repr)))], key=repr))):
+                        found = True
         ctx.ob("logmerge-shape", k, a.node, "cprime = log((v - num_reserved)*(base - 1) + 1) / log(base)",
                "re-encoding inverts the decoder's geometric sum", found, "" if found else "no assignment with that normal form")
         # the choice: fractional position <= 1/2 -> lower, else upper
@@ -514,6 +527,19 @@ def rule_logmerge_shape(ctx):
         for need in ("reserved", "ceiling"):
             if need not in seen:
                 ctx.ob("logmerge-shape", k, k.node, "%s: %s case" % (k.name, need), "three-way split reserved / ceiling / re-encode", False, "case missing")
+
+
+def _sum_of_decodes(t):
+    """Sub-terms of the normal form `t` that are a sum of two _counter2value(...) calls."""
+    out = []
+    def rec(x):
+        if isinstance(x, tuple):
+            if x and x[0] == "add" and len(x[1]) == 2 and all(isinstance(y, tuple) and y[0] == "call" and y[1] == "_counter2value" for y in x[1]):
+                out.append(x)
+            for y in x:
+                rec(y)
+    rec(t)
+    return out
 
 
 def _path_has(conds, kind, lin):
